@@ -761,6 +761,8 @@ class StrCell:
         return z3.is_bv_value(z3.simplify(self.n)) and all(z3.is_bv_value(z3.simplify(c)) for c in self.ch) and \
             (z3.is_true(z3.simplify(self.tail)) or z3.is_false(z3.simplify(self.tail)))
 
+FORMAT_HOOK = [None]    # when set: SymStr -> text conversions produce a placeholder token instead of forking over contents
+
 def tocell(v):
     if isinstance(v, SymStr): return v.c
     if isinstance(v, StrCell): return v
@@ -795,9 +797,13 @@ class SymStr:
         n = c.concretise(z3.ZeroExt(56, self.c.n))
         s = "".join(chr(c.concretise(z3.ZeroExt(43, self.c.ch[j]))) for j in range(n))
         return s + ("a" * STR_TAIL if c.branch(self.c.tail) else "")
-    def __str__(self): return self.realise()
+    def __str__(self):
+        if FORMAT_HOOK[0] is not None: return FORMAT_HOOK[0](self, "")
+        return self.realise()
     def __repr__(self): return "SymStr"
-    def __format__(self, spec): return format(self.realise(), spec)
+    def __format__(self, spec):
+        if FORMAT_HOOK[0] is not None: return FORMAT_HOOK[0](self, spec)
+        return format(self.realise(), spec)
 
 # --------------------------------------------------------------------------- helpers for harnesses
 
